@@ -9,6 +9,9 @@
     shareRange".  Sample contents carry the index of the save that wrote them,
     so a stale sample leaking into a load is visible.  States are canonicalised
     by the directory listing with save-versions relabelled order-preservingly.
+(H') ALL distributions of n samples over k tasks (every composition of n into k
+    parts, zeros included) for the save, over an empty or a longer foreign
+    list, every interleaving, then load with 1..3 tasks.
 (P) streaming statistics: ALL value sequences of length 1..4 over a 5-value
     alphabet (real and complex, equal values included) through StatCalculator,
     sample_stat, average (1..3 tasks) and save_to_hdf5 read back with h5py.
@@ -67,14 +70,19 @@ def _expected_item(kind, multi, version, i):
     return m - r if i % 2 else m + r
 
 
-def _do_save(base, kind, multi, n, k, version, overwrite=True):
-    """save with k tasks under SimComm, default schedule + all interleavings."""
+def _do_save(base, kind, multi, n, k, version, overwrite=True, layout=None):
+    """save with k tasks under SimComm, default schedule + all interleavings.
+    layout: per-task sample counts (default: the shareRange distribution)."""
     import nifty.cl as ift
     from nifty.cl.utilities import shareRange
     from vf import simcomm
 
     def program(rank, comm):
-        lo, hi = shareRange(n, k, rank)
+        if layout is None:
+            lo, hi = shareRange(n, k, rank)
+        else:
+            lo = sum(layout[:rank])
+            hi = lo + layout[rank]
         c = comm if k > 1 else None
         if kind == "plain":
             sl = ift.SampleList([_field(multi, version, i, 0) for i in range(lo, hi)], comm=c, domain=_dom(multi))
@@ -258,6 +266,74 @@ def explore_histories(multi, depth, ktasks):
         shutil.rmtree(work, ignore_errors=True)
 
 
+def _compositions(n, k):
+    if k == 1:
+        yield (n,)
+        return
+    for a in range(n + 1):
+        for rest in _compositions(n - a, k - 1):
+            yield (a,) + rest
+
+
+def layout_case(kind, multi, n, k, prior):
+    """ALL distributions of n samples over k tasks (zeros included, not only the shareRange one): save over
+    `prior` (None or a longer single-task list of the same/other kind), then load with 1..3 tasks."""
+    from nifty.cl.utilities import shareRange
+    work = tempfile.mkdtemp(prefix="c26l_")
+    d = os.path.join(work, "sl")
+    os.makedirs(d)
+    base = os.path.join(d, "latest")
+    st_tot = dict(states=0, transitions=0, executions=0, loads=0, layouts=0, nonstandard=0)
+    try:
+        snap0 = {}
+        if prior is not None:
+            _, viol, snap0 = _run_all_schedules(1, _do_save(base, prior, multi, 7, 1, 1), d, {}, lambda x: None)
+        for layout in _compositions(n, k):
+            st_tot["layouts"] += 1
+            std = tuple(hi - lo for lo, hi in (shareRange(n, k, r) for r in range(k)))
+            st_tot["nonstandard"] += layout != std
+
+            def check_save(x):
+                if x.deadlock:
+                    return "deadlock during save"
+                for r in range(k):
+                    if x.errors[r] is not None:
+                        return "save raised on rank %d: %r" % (r, x.errors[r])
+                return None
+            st, viol, after = _run_all_schedules(k, _do_save(base, kind, multi, n, k, 2, layout=layout), d, snap0, check_save)
+            st_tot["transitions"] += 1
+            st_tot["executions"] += st["executions"]
+            if viol:
+                return st_tot, dict(layout=layout, op="save", **viol)
+            for k2 in (1, 2, 3):
+                def check_load(x, k2=k2):
+                    if x.deadlock:
+                        return "deadlock during load"
+                    for r in range(k2):
+                        if x.errors[r] is not None:
+                            return "load with %d tasks raised on rank %d: %r" % (k2, r, x.errors[r])
+                    for r in range(k2):
+                        res = x.results[r]
+                        lo, hi = shareRange(n, k2, r)
+                        if res["n"] != n:
+                            return "load reports %d samples, the save wrote %d" % (res["n"], n)
+                        if res["indices"] != list(range(lo, hi)):
+                            return "rank %d of %d holds indices %s, expected %s" % (r, k2, res["indices"], list(range(lo, hi)))
+                        for j, i in enumerate(range(lo, hi)):
+                            if not np.array_equal(res["local"][j], _expected_item(kind, multi, 2, i)):
+                                return ("sample %d loaded on rank %d/%d is not the one the save wrote (got %s, expected %s)"
+                                        % (i, r, k2, res["local"][j], _expected_item(kind, multi, 2, i)))
+                    return None
+                st, viol, _ = _run_all_schedules(k2, _do_load(base, kind, multi, k2), d, after, check_load)
+                st_tot["loads"] += 1
+                st_tot["executions"] += st["executions"]
+                if viol:
+                    return st_tot, dict(layout=layout, op="load k=%d" % k2, **viol)
+        return st_tot, None
+    finally:
+        shutil.rmtree(work, ignore_errors=True)
+
+
 # ------------------------------------------------------------------ (P) statistics
 VALS_R = [0.0, 1.5, -2.0, 1.5 + 1e-9, 1e8]
 VALS_C = [0.0, 1.5 + 0.5j, -2.0j, 1.5 + 0.5j, 3.0 - 1.0j]
@@ -336,6 +412,11 @@ def cases(tier, seed):
     kt = [1, 2, 3] if tier == "quick" else [1, 2, 3, 4]
     for multi in (False, True):
         out.append(dict(kind="bfs", multi=multi, depth=depth, ktasks=kt))
+    for kind in ("resid", "plain"):
+        for prior in (None, "resid", "plain"):
+            for k in ([2, 3] if tier == "quick" else [2, 3, 4]):
+                for n in ([1, 2, 4] if tier == "quick" else [1, 2, 3, 4, 5]):
+                    out.append(dict(kind="layout", lkind=kind, prior=prior, k=k, n=n, multi=(n % 2 == 0)))
     for cplx in (False, True):
         for L in (1, 2, 3, 4):
             for k in ([1, 2, 3] if tier == "quick" else [1, 2, 3, 4]):
@@ -355,6 +436,14 @@ def run(case):
                        finding_key=None, detail=viol, stats=st)
         return ok(nontrivial=tot["overwrite_shorter"] > 0 and tot["type_switch"] > 0,
                   outcome="bfs-ok", stats=st, detail=tot)
+    if case["kind"] == "layout":
+        tot, viol = layout_case(case["lkind"], case["multi"], case["n"], case["k"], case["prior"])
+        st = dict(states=tot["layouts"], transitions=tot["transitions"], executions=tot["executions"], loads=tot["loads"])
+        if viol:
+            return bad("%s (%s list of %d samples distributed %s over %d tasks, prior content %s; %s)"
+                       % (viol["what"], case["lkind"], case["n"], viol["layout"], case["k"], case["prior"], viol["op"]),
+                       finding_key=None, detail=dict(viol, layout=list(viol["layout"])), stats=st)
+        return ok(nontrivial=tot["nonstandard"] > 0, outcome="layout-ok", stats=st, detail=tot)
     vals = VALS_C if case["cplx"] else VALS_R
     if case["kind"] == "stats":
         nseq = nd = 0
